@@ -195,6 +195,23 @@ def make_runner(case, inc, pid, wd, ext, fault, seen, clock, rel=False):
     return Runner()
 
 
+REAL_REPLACE = os.replace
+
+
+def _publish_probe(inner, published):
+    """os.replace as the simulation sees it: remembers what the source file holds ON THE DISK when it is renamed into place"""
+    def _replace(src, dst, *a, **kw):
+        try:
+            with builtins.open(src, "rb") as fh:
+                data = fh.read()
+        except OSError:
+            data = None
+        r = inner(src, dst, *a, **kw)
+        published[os.path.abspath(str(dst))] = data
+        return r
+    return _replace
+
+
 def _disk(wd):
     """content of every result file under wd (progress files excluded)"""
     out = {}
@@ -254,6 +271,8 @@ def run_case(job):
             last = inc == incs
             fault = None if last else fault_of(crashes[inc - 1], case)
             seen = {}
+            published = {}
+            os.replace = _publish_probe(REAL_REPLACE, published)
             # virtual wall clock; a restarted (same) runner object goes on with the clock it had, so that the
             # five-minute timer does not fire merely because a new incarnation started
             clock = clock_prev if (reuse and runner is not None) else [1000.0]
@@ -282,8 +301,7 @@ def run_case(job):
                         return bool(m) and (int(m.group(1)) == t - 1 or (nv == 1 and int(m.group(1)) == -1))
                 fo = FaultyOpen(match, fault["skip"], "wrename" if (rename and fault["mode"] == "wbegin") else fault["mode"])
                 resmod.open = fo
-                real_replace = os.replace
-                os.replace = fo.replace(real_replace)
+                os.replace = _publish_probe(fo.replace(REAL_REPLACE), published)
             if fault and fault["kind"] == "remove" and case["delete"]:
                 def bad_remove(path, *a, **k):
                     if "_unpack_" in os.path.basename(str(path)):      # the deletion of the partial-results files
@@ -291,6 +309,7 @@ def run_case(job):
                     return real_remove(path, *a, **k)
                 os.remove = bad_remove
             disk_before = _disk(wd) if (last and case["outcome"] == "refused") else None
+
             try:
                 try:
                     runner.simulate()
@@ -315,9 +334,17 @@ def run_case(job):
                     except AttributeError:
                         pass
                 os.remove = real_remove
-                if "real_replace" in dir():
-                    os.replace = real_replace
+                os.replace = REAL_REPLACE
                 runmod.time = real_time
+            # a file is published (renamed into place) only when its content is completely written: what the name holds now
+            # is what the temporary file held on the disk at the moment of the rename (a process death right after the rename
+            # loses whatever was still buffered)
+            for dst, data in published.items():
+                if data is not None and os.path.exists(dst):
+                    with builtins.open(dst, "rb") as fh:
+                        if fh.read() != data:
+                            return (f"incarnation {inc}: {os.path.basename(dst)} was renamed into place before its content was completely "
+                                    "written (a crash right after the rename would have left a truncated file)"), None
             if not last:
                 if fault is None:
                     if crashed:
